@@ -44,11 +44,22 @@ fn setup(h: &mut H) -> (Keys, Value, Vec<Issue>, Vec<Pok>) {
     let (ck, _) = cpk(h, Some(&k.n_mod), n);
     let mut issues = Vec::new();
     let mut poks = Vec::new();
+    let mut tcpk: Option<Value> = None;
     let subs: Vec<Vec<usize>> = if h.thorough { subsets(n) } else { vec![vec![0], vec![1], vec![0, 2], vec![0, 1, 2], vec![]] };
     for u in subs {
         // hidden attributes are hash outputs (>= 2^200 with overwhelming probability), as the API produces
         let msgs = attrs(h, n);
         if !u.is_empty() {
+            // the same issuance WITH a trusted-party commitment (own modulus): its sub-proof that C and C_trusted
+            // hide the same attributes answers for every hidden attribute once more
+            if u.len() >= 2 || h.thorough {
+                if tcpk.is_none() {
+                    tcpk = Some(cpk(h, None, n).0);
+                }
+                if let Some(i) = holder(h, &k, n, &u, tcpk.as_ref(), msgs.clone()) {
+                    issues.push(i);
+                }
+            }
             if let Some(i) = holder(h, &k, n, &u, None, msgs.clone()) {
                 let bt = boundary_tape(&i.zk_tape, false);
                 let (zb, tb) = crate::ops::call(
@@ -90,7 +101,13 @@ pub fn c17(h: &mut H) {
     let mut pm = move |b: &Integer, e: &Integer, n: &Integer| -> Integer {
         memo.entry((b.clone(), e.clone())).or_insert_with(|| powm(b, e, n)).clone()
     };
-    let mut run = |h: &mut H, what: &str, proof: &Value, secrets: &[(String, Integer)], v_sig: Option<&Integer>, id: u64| {
+    // proofs re-generated from a boundary tape have all blindings at the minimum of their contract, hence EQUAL
+    // blindings by construction: the difference test (5) is about real randomness and skips them
+    let is_boundary = |tape: &[(String, Integer)]| -> bool {
+        let free: Vec<&Integer> = tape.iter().enumerate().filter(|(i, (k, v))| k == "bits" && *v > 0 && !(i + 1 < tape.len() && tape[i + 1].0 == "prime")).map(|(_, (_, v))| v).collect();
+        free.len() >= 2 && free.iter().all(|v| **v == pow2(v.significant_bits() - 1))
+    };
+    let mut run = |h: &mut H, what: &str, proof: &Value, secrets: &[(String, Integer)], v_sig: Option<&Integer>, id: u64, real_randomness: bool| {
         let mut cs = Vec::new();
         commitments(proof, String::new(), &mut cs);
         let mut lv = Vec::new();
@@ -159,12 +176,39 @@ pub fn c17(h: &mut H) {
             }
             h.expect(q_true == q_decoy, "C17.dictionary_quotient", &format!("{}: {} tells the hidden value {} from a decoy", what, witness, sn), &[id]);
         }
+        // (5) differences of two responses of the same response vector divided by a field of the proof must not
+        // confirm the difference of two hidden values (a blinding shared by two secrets cancels out)
+        for a in 0..lv.len() {
+            if !real_randomness { break; }
+            for b in 0..lv.len() {
+                if a == b { continue; }
+                let (pa, sa) = &lv[a];
+                let (pb, sb) = &lv[b];
+                // leaves that are ELEMENTS of the same array: path = stem[k]
+                let stem = |p: &String| if p.ends_with(']') { p.rfind('[').map(|k| p[..k].to_string()) } else { None };
+                if stem(pa).is_none() || stem(pa) != stem(pb) { continue; }
+                let diff = Integer::from(sa - sb);
+                for (pc, cv) in &lv {
+                    if *cv <= 1 || !(pc.ends_with("challenge") || pc.ends_with(".C")) { continue; }
+                    if !diff.is_divisible(cv) { continue; }
+                    let q = Integer::from(&diff / cv);
+                    for (i1, (n1, x1)) in secrets.iter().enumerate() {
+                        for (n2, x2) in secrets.iter().skip(i1 + 1) {
+                            let d12 = Integer::from(x1 - x2);
+                            if d12 == 0 { continue; }
+                            h.expect(q != d12 && q != Integer::from(-&d12), "C17.difference", &format!("{}: ({} - {}) / {} equals the difference of the hidden values {} and {}", what, pa, pb, pc, n1, n2), &[id]);
+                        }
+                    }
+                }
+            }
+        }
     };
     for iss in &issues {
         let mut secrets: Vec<(String, Integer)> = iss.hidden.iter().map(|&i| (format!("m_{}", i), iss.msgs[i].clone())).collect();
         secrets.push(("r".into(), field(&iss.c, "randomness")));
         let id = h.last();
-        run(h, "issuance", &iss.zk, &secrets, None, id);
+        let real = !is_boundary(&iss.zk_tape);
+        run(h, "issuance", &iss.zk, &secrets, None, id, real);
     }
     for pk in &poks {
         let mut secrets: Vec<(String, Integer)> = pk.hidden.iter().map(|&i| (format!("m_{}", i), pk.msgs[i].clone())).collect();
@@ -178,7 +222,8 @@ pub fn c17(h: &mut H) {
         }
         let v = field(&pk.sig, "v");
         let id = h.last();
-        run(h, "signature_proof", &pk.pok, &secrets, Some(&v), id);
+        let real = !is_boundary(&pk.tape);
+        run(h, "signature_proof", &pk.pok, &secrets, Some(&v), id, real);
     }
 }
 
